@@ -259,6 +259,12 @@ def _eval_guards(case):
         return dict(findings=[], nontrivial=False, sig=None, tags=dict(kind='guards', outcome='unbuildable'))
     bound = dict(zip(names, args))
     bound.update(kw)
+    import numpy as _np
+    if any(isinstance(v, _np.ndarray) and v.ndim == 0 for v in bound.values()):
+        # np.ascontiguousarray / np.asfortranarray promote a 0-d array to 1-d before some guards run; the guard DSL
+        # treats those conversions as rank preserving, which is exact for every rank >= 1 only: not compared for 0-d
+        # arguments (they stay in the crash/hang sweep)
+        return dict(findings=[], nontrivial=False, sig=None, tags=dict(kind='guards', outcome='skipped-0d'))
     toks = [f'c11 kind=guards fn={_short(spec["fn"])}']
     for n in names:
         if n in bound:
